@@ -615,6 +615,12 @@ def m7(prog: Program, chk: Check, rule: str = "M7") -> None:
              "getter", floor=3)
     for (u, label, got, want, site) in cap_closings(prog):
         chk.saw(u)
+        closed = {ax for ax in got if isinstance(ax, int)}
+        if closed < {ax for ax in want if isinstance(ax, int)} and closed <= {1}:
+            # no system leg of the MPO tensor is seen closed at all: a cap with open system legs
+            # could not even be stored - the closing happens in a shape the rule does not read
+            raise AnalysisError(f"{rule}: the closing of the system legs in {u.qual} was not found "
+                                f"(only {got}); expected {want}")
         chk.add(rule, u, f"{label}: legs closed with {got}", got == want,
                 "" if got == want else
                 f"expected {want}: a cap built otherwise carries a wrong weight, the states "
